@@ -105,6 +105,13 @@ pub fn build_recipe(r: &J) -> String {
             }
             s
         }
+        "worst:combined" => {
+            // everything at its limit at once: n nested ifs, a 499-elif chain in the innermost, and in its last
+            // branch an expression of 36-n nested parentheses around a chain that uses up the expression depth
+            let p = 36usize.saturating_sub(n);
+            let e = format!("{{{{ {}1{}{} }}}}", rep("(", p), rep(" + 1", 254 - p), rep(")", p));
+            format!("{}{{% if a %}}x{}{}{{% endif %}}{}", rep("{% if a %}", n), rep("{% elif a %}y", 499), e, rep("{% endif %}", n))
+        }
         "chain:elif" => format!("{{% if a %}}x{}{{% endif %}}", rep("{% elif a %}y", n)),
         "chain:filter" => format!("{{{{ a{} }}}}", rep(" | upper", n)),
         "chain:attr" => format!("{{{{ a{} }}}}", rep(".b", n)),
@@ -315,7 +322,7 @@ pub fn oracle_inputs(rng: &mut Rng, thorough: bool) -> Vec<Input> {
     }
     // 1. prefixes and single-character deletions of the snapshot corpus and of the base templates
     let corpus = tvh::corpus::corpus_templates();
-    let (kn, kd) = if thorough { (1, 1) } else { (1, 6) };
+    let (kn, kd) = if thorough { (1, 1) } else { (1, 10) };
     for (label, src) in &corpus {
         push_mutations(&mut out, label, src, rng, kn, kd);
         out.push(Input::new("corpus", format!("corpus:{label}"), src.as_str()));
@@ -332,7 +339,7 @@ pub fn oracle_inputs(rng: &mut Rng, thorough: bool) -> Vec<Input> {
                 let mut from = 0;
                 while let Some(p) = s[from..].find(m) {
                     let at = from + p;
-                    for mb in MB {
+                    for mb in &MB[..if thorough { 5 } else { 2 }] {
                         for pos in [at, at + m.len(), at + 2.min(m.len())] {
                             if s.is_char_boundary(pos) {
                                 let mut t = s.clone();
@@ -354,6 +361,9 @@ pub fn oracle_inputs(rng: &mut Rng, thorough: bool) -> Vec<Input> {
         for &n in &ns {
             out.push(recipe_input("nesting", kind, n));
         }
+    }
+    for n in [0usize, 10, 20, 30, 35, 36, 37] {
+        out.push(recipe_input("nesting", "worst:combined", n));
     }
     // 4. chains (not nestings)
     let cs: Vec<usize> = if thorough { vec![10, 100, 250, 500, 1000, 2000, 5000, 10_000, 100_000] } else { vec![10, 250, 1000, 100_000] };
@@ -425,7 +435,7 @@ pub fn oracle_inputs(rng: &mut Rng, thorough: bool) -> Vec<Input> {
                 i.delims = Some(d.clone());
                 out.push(i);
                 for &p in &idx {
-                    if thorough || rng.chance(1, 3) {
+                    if thorough || rng.chance(1, 8) {
                         let mut i = Input::new("delimiters", format!("delims:{di}:base{k}.{v}:prefix{p}"), &s[..p]);
                         i.delims = Some(d.clone());
                         out.push(i);
@@ -459,7 +469,7 @@ pub fn oracle_inputs(rng: &mut Rng, thorough: bool) -> Vec<Input> {
         }
     }
     // 9. random byte-level mutations of corpus templates (splice, duplicate, swap)
-    let n_rand = if thorough { 20_000 } else { 1500 };
+    let n_rand = if thorough { 20_000 } else { 1000 };
     let frags = ["{{", "}}", "{%", "%}", "{#", "#}", "-", "(", ")", "[", "]", "{", "}", "\"", "'", "`", "\\", "|", ".", ",", ":", "=", "<", ">", "/",
         "if", "else", "elif", "endif", "for", "in", "endfor", "not", "is", "and", "or", "raw", "endraw", "set", "block", "é", "😀", " ", "\n", "0", "...", "?.", "?["];
     for k in 0..n_rand {
@@ -1000,7 +1010,7 @@ pub fn skel_cases(rng: &mut Rng, n: usize) -> Vec<SkelCase> {
         push!(blk, "limit:block");
     }
     // chains (AST depth grows with the chain)
-    for k in [1usize, 2, 5, 20, 60, 150] {
+    for k in [1usize, 2, 5, 20, 60, 150, 254, 255, 256, 257, 258] {
         for op in [Plus, Minus, Mul, Tilde, Cmp, Word(W::And), Word(W::Or), Word(W::In)] {
             push!(rep_toks(&[VarStart, a], &[op, a], k, &[], &[], &[VarEnd]), "chain:binary");
         }
@@ -1013,6 +1023,23 @@ pub fn skel_cases(rng: &mut Rng, n: usize) -> Vec<SkelCase> {
         push!(rep_toks(&[VarStart, a], &[Word(W::Not), Word(W::In), a], k, &[], &[], &[VarEnd]), "chain:not-in");
         push!(rep_toks(&[TagStart, Word(W::If), a, TagEnd, Text], &[TagStart, Word(W::Elif), a, TagEnd, Text], k, &[], &[], &[TagStart, Word(W::Endif), TagEnd]), "chain:elif");
         push!(rep_toks(&[TagStart, Word(W::If), a, TagEnd], &[TagStart, Word(W::Elif), a, TagEnd], k, &[TagStart, Word(W::Else), TagEnd, Text], &[], &[TagStart, Word(W::Endif), TagEnd]), "chain:elif");
+    }
+    for k in [254usize, 255, 256, 257] {
+        // nested levels add to the height of the enclosing expression
+        push!(rep_toks(&[VarStart, LParen, a], &[Plus, a], k, &[RParen, Plus, a], &[], &[VarEnd]), "chain:binary");
+        push!(rep_toks(&[VarStart, Minus, a], &[Dot, a], k, &[], &[], &[VarEnd]), "chain:attr");
+        push!(rep_toks(&[VarStart, LBracket, a], &[Tilde, a], k, &[RBracket], &[], &[VarEnd]), "chain:binary");
+    }
+    for k in [498usize, 499, 500, 501, 502] {
+        push!(rep_toks(&[TagStart, Word(W::If), a, TagEnd, Text], &[TagStart, Word(W::Elif), a, TagEnd, Text], k, &[], &[], &[TagStart, Word(W::Endif), TagEnd]), "chain:elif");
+    }
+    for k in [248usize, 249, 250, 251] {
+        // elif chains inside elif bodies accumulate
+        let inner = rep_toks(&[TagStart, Word(W::If), a, TagEnd], &[TagStart, Word(W::Elif), a, TagEnd], k, &[], &[], &[TagStart, Word(W::Endif), TagEnd]);
+        let mut v = rep_toks(&[TagStart, Word(W::If), a, TagEnd], &[TagStart, Word(W::Elif), a, TagEnd], 250, &[], &[], &[]);
+        v.extend(inner);
+        v.extend_from_slice(&[TagStart, Word(W::Endif), TagEnd]);
+        push!(v, "chain:elif");
     }
     // grammar-generated documents, their truncations and inside-token mutations
     let mut k = 0usize;
